@@ -10,9 +10,9 @@ Lemma walk_checked_total ms guard : forall fuel sp,
   exists r, walk Checked ms guard fuel sp = Ok r.
 Proof.
   induction fuel as [|f IH]; intros sp Hsp Hg; cbn [walk].
-  - destruct (may_be_stack _ || negb (sp <=? guard)) eqn:E; [eauto|].
-    apply orb_false_iff in E. destruct E as (_ & E). apply negb_false_iff, N.leb_le in E. cbn in Hg. lia.
-  - destruct (may_be_stack _ || negb (sp <=? guard)) eqn:E; [eauto|].
+  - destruct (may_be_stack _); [eauto|]. destruct (negb (sp <=? guard)) eqn:E; [eauto|].
+    apply negb_false_iff, N.leb_le in E. cbn in Hg. lia.
+  - destruct (may_be_stack _); [eauto|]. destruct (negb (sp <=? guard)) eqn:E; [eauto|].
     destruct (W64 <=? sp + PAGE) eqn:Eo; [eauto|].
     apply N.leb_gt in Eo. apply IH; [exact Eo|]. rewrite Nat2N.inj_succ in Hg. lia.
 Qed.
@@ -43,7 +43,7 @@ Theorem get_stack_info_in_mapping p fuel ms sp0 m :
                 v = sp /\ v <= sp0 /\ sp0 < v + len /\ v + len = s_start m + s_size m.
 Proof.
   intros sp Hf Hrw Hc Hlo Hhi Hsys. unfold get_stack_info. fold sp.
-  destruct fuel; cbn [walk]; rewrite Hf; cbn [may_be_stack]; rewrite Hrw; cbn [orb]; rewrite Hc;
+  destruct fuel; cbn [walk]; rewrite Hf; cbn [may_be_stack]; rewrite Hrw; rewrite Hc;
     (exists sp, (s_size m - (sp - s_start m)); split; [reflexivity|]);
     (split; [reflexivity|]); unfold sp, PAGE in *; lia.
 Qed.
